@@ -31,7 +31,8 @@ FAULTS = ["dup_label", "undef_label_operand", "undef_label_push", "undef_label_m
           "dup_macro", "div_zero_const", "div_zero_label", "too_large", "negative", "dup_local_label",
           "undef_variable", "imacro_as_expr", "recursive_imacro", "recursive_emacro", "unbound_var_nested", "missing_arg_nested",
           "undef_label_surplus_arg", "undef_emacro_surplus_arg", "undef_label_nested_arg", "undef_label_surplus_in_imacro_arg",
-          "undef_label_surplus_in_push", "too_large_push", "too_large_push_in_macro", "negative_push"]
+          "undef_label_surplus_in_push", "too_large_push", "too_large_push_in_macro", "negative_push",
+          "undef_label_arg_like_local", "undef_label_arg_like_local_nested"]
 
 
 def inject(rng, prog, fault):
@@ -127,6 +128,16 @@ def inject(rng, prog, fault):
     elif fault == "undef_label_surplus_in_push":
         p.insert(pos, ("push", ("macro", "twice", [("lbl", "end"), ("lbl", "nowhere")])))
         exp = ("UndeclaredLabels", "nowhere")
+    elif fault == "undef_label_arg_like_local":
+        # the argument names a label that exists only INSIDE the macro: at the call site it is undeclared
+        p.insert(0, ("defi", "loc", ["x"], [("label", "inside"), ("op", "jumpdest", None), ("op", "push1", ("var", "x"))]))
+        p.insert(max(pos, 1), ("macro", "loc", [("lbl", "inside")]))
+        exp = ("UndeclaredLabels", "inside")
+    elif fault == "undef_label_arg_like_local_nested":
+        p.insert(0, ("defi", "locin", ["p"], [("op", "push1", ("var", "p"))]))
+        p.insert(0, ("defi", "locout", ["q"], [("label", "inside"), ("op", "jumpdest", None), ("macro", "locin", [G.climb([("var", "q"), "+", ("num", 1)])])]))
+        p.insert(max(pos, 2), ("macro", "locout", [("lbl", "inside")]))
+        exp = ("UndeclaredLabels", "inside")
     elif fault == "too_large_push":
         p.insert(pos, ("push", G.climb([("lbl", "end"), "+", ("num", 2 ** 256)])))
         exp = ("ExpressionTooLarge", None)
